@@ -70,8 +70,9 @@ func streamDetFile(ctx *Ctx) *Result {
 				_, err := bcl.ParseFile(f, bcl.OptOutput(io.Discard), bcl.OptLogger(&log))
 				return fmt.Sprintf("err=%v", err)
 			})
-			// diagnostics are compared only when the parser's error is what is returned
-			got := v
+			// the diagnostics the caller's log holds when the call returns are part of the outcome:
+			// everything delivered before the failing read has been parsed by then
+			got := v + " log=" + fmt.Sprintf("%q", log.String())
 			res.Eval(1)
 			if rep == 0 {
 				first = got
